@@ -10,6 +10,11 @@
 (*   variant "A" aggregator role: ..., cm_d, cm_v, cm_u, s1..s5             *)
 (*   variant "T" task role:       ..., command value, argument, env, prop   *)
 (*   variant "C" call role:       ..., value returned by the call           *)
+(*   variant "I" include role as itself: <<level, "I", h0..h5, name>>        *)
+(*   variant "S" the root of the sub-workflow it loaded (same object, next  *)
+(*               level): as "A" without the user-var probe and the name      *)
+(*   variant "B" aggregator inside the sub-workflow: as "A" without the      *)
+(*               user-var probe                                             *)
 (* cs = ConsolidatedVarStack()[k]; h = k in the stack of template stage     *)
 (* 0..5 (hook point vs.stage); cm = ConsolidatedVarMaps(); s = a field of   *)
 (* the role rendered at stage 1..5 whose template is a reference to k.      *)
@@ -41,7 +46,7 @@ allvars == <<cs, tvars>>
 
 Line == Trace[l]
 
-CaseOf(ln) == [d |-> ln.d, c |-> ln.c, o |-> ln.o, ref |-> ln.ref, it |-> ln.it, cc |-> ln.cc]
+CaseOf(ln) == [d |-> ln.d, c |-> ln.c, o |-> ln.o, ref |-> ln.ref, it |-> ln.it, inc |-> ln.inc, cc |-> ln.cc]
 
 Soft(name, scn, cond, detail) ==
   IF cond THEN 0
@@ -66,28 +71,31 @@ ExpectedRecord(lv, variant, ex) ==
   CASE variant = "A" -> <<lv, variant>> \o ex \o <<Show(ex[3]), Show(ex[4]), Show(ex[5]), Show(ex[6]), Show(ex[7])>>
     [] variant = "T" -> <<lv, variant>> \o SubSeq(ex, 1, 7)
     [] variant = "C" -> <<lv, variant>> \o SubSeq(ex, 1, 7) \o <<Show(ex[1])>>
+    \* an include role before the sub-workflow replaces its aggregator part: the stacks of its own
+    \* six template stages and its name (stage 4)
+    [] variant = "I" -> <<lv, variant>> \o SubSeq(ex, 2, 7) \o <<Show(ex[6])>>
+    \* the root of the included sub-workflow (the same role object afterwards): as an aggregator,
+    \* without user vars of its own and with the include role's name
+    [] variant = "S" -> <<lv, variant>> \o ex \o <<Show(ex[3]), Show(ex[4]), Show(ex[7])>>
+    \* an aggregator inside the included sub-workflow: no user vars of its own when it is loaded
+    [] variant = "B" -> <<lv, variant>> \o ex \o <<Show(ex[3]), Show(ex[4]), Show(ex[6]), Show(ex[7])>>
     [] OTHER -> <<>>
 
+\* which property formula position j of a record of this variant belongs to
+FieldName(variant, j) ==
+  CASE variant = "I" -> (IF j <= 8 THEN "StageVisible" ELSE "Rendered")
+    [] j = 3 -> "Resolve"
+    [] j \in 4..9 -> "StageVisible"
+    [] variant = "C" -> "CallSees"
+    [] j \in 10..12 -> "KindMaps"
+    [] OTHER -> "Rendered"
+
 \* field by field, to name what differs
-RoleViolDetail(c, scn, e, ex) ==
-  LET lv == e[1]
-      variant == e[2]
-      res == ex[1]
-      common ==
-          Soft("Resolve", scn, e[3] = res, <<lv, variant, "cs", e[3], res>>)
-        + SumSeq([st \in 1..6 |->
-                    Soft("StageVisible", scn, e[3 + st] = ex[1 + st], <<lv, variant, st - 1, e[3 + st], ex[1 + st]>>)])
-      spec ==
-        CASE variant = "A" ->
-               SumSeq([kd \in 1..3 |->
-                         Soft("KindMaps", scn, e[9 + kd] = ex[7 + kd], <<lv, variant, kd - 1, e[9 + kd], ex[7 + kd]>>)])
-             + SumSeq([st \in 1..5 |->
-                         Soft("Rendered", scn, e[12 + st] = Show(ex[2 + st]), <<lv, variant, st, e[12 + st], Show(ex[2 + st])>>)])
-          [] variant = "C" ->
-               Soft("CallSees", scn, e[10] = Show(res), <<lv, variant, "ret", e[10], Show(res)>>)
-          [] variant = "T" -> 0
-          [] OTHER -> Soft("Shape", scn, FALSE, <<lv, variant>>)
-  IN common + spec
+RoleViolDetail(c, scn, e, exp) ==
+  IF Len(e) # Len(exp) THEN Soft("Shape", scn, FALSE, <<e[1], e[2], Len(e), Len(exp)>>)
+  ELSE SumSeq([j \in 1..Len(e) |->
+                 IF j <= 2 THEN 0
+                 ELSE Soft(FieldName(e[2], j), scn, e[j] = exp[j], <<e[1], e[2], j, e[j], exp[j]>>)])
 
 ClassViol(c, scn, e, res, i) ==
   Soft("ClassBelowWorkflow", scn,
@@ -95,15 +103,25 @@ ClassViol(c, scn, e, res, i) ==
        <<e[1], e[2], i, e[9 + i], Show(res)>>)
 
 RoleViol(c, scn, e, ex) ==
-    (IF (IF e[2] = "T" THEN SubSeq(e, 1, 9) ELSE e) = ExpectedRecord(e[1], e[2], ex)
-       THEN 0 ELSE RoleViolDetail(c, scn, e, ex))
+    (LET got == IF e[2] = "T" THEN SubSeq(e, 1, 9) ELSE e
+         exp == ExpectedRecord(e[1], e[2], ex)
+     IN IF got = exp THEN 0 ELSE RoleViolDetail(c, scn, got, exp))
   + (IF e[2] = "T"
        THEN ClassViol(c, scn, e, ex[1], 1) + ClassViol(c, scn, e, ex[1], 2)
           + ClassViol(c, scn, e, ex[1], 3) + ClassViol(c, scn, e, ex[1], 4)
        ELSE 0)
 
 \* --- strict conformance: what the property leaves open, as the code does it ---
-ExpectedRoles(c, notc) == IF notc THEN c.d ELSE 1 + 3 * (c.d - 1)   \* notc: the case was run without the task / call variants
+\* one record per level (the aggregator on the path; at an include: the include role, then the
+\* sub-workflow root) plus - unless the case was run without them (notc) - a task role and a call
+\* role variant at every level >= 2 except the sub-workflow root's
+ExpectedRoles(c, notc) ==
+  IF notc THEN c.d ELSE c.d + 2 * Cardinality({lv \in 2..c.d : c.inc = 0 \/ lv # c.inc + 1})
+VariantAt(c, lv) ==
+  CASE c.inc = 0 \/ lv < c.inc -> {"A", "T", "C"}
+    [] lv = c.inc -> {"I", "T", "C"}
+    [] lv = c.inc + 1 -> {"S"}
+    [] OTHER -> {"B", "T", "C"}
 RoleConforms(c, e, ex) ==
   CASE e[2] = "T" -> /\ e[10] = Show(CmdLineR(c, ex[1])) /\ e[11] = e[10] /\ e[12] = e[10]
                      /\ e[13] = Show(PropMapR(c, ex[1]))
@@ -112,7 +130,8 @@ Conforms(c, ln, Ex) ==
   IF Fails(c) THEN ln.err = "unknown-name" /\ Len(ln.r) = 0
   ELSE /\ ln.err = ""
        /\ Len(ln.r) = ExpectedRoles(c, ln.notc)
-       /\ \A i \in 1..Len(ln.r) : ln.r[i][1] \in 1..c.d /\ RoleConforms(c, ln.r[i], Ex[ln.r[i][1]])
+       /\ \A i \in 1..Len(ln.r) : /\ ln.r[i][1] \in 1..c.d /\ ln.r[i][2] \in VariantAt(c, ln.r[i][1])
+                                  /\ RoleConforms(c, ln.r[i], Ex[ln.r[i][1]])
 
 TCase ==
   /\ l <= last /\ Line.ev = "Case"
@@ -128,7 +147,7 @@ TCase ==
 
 ChunkSize == (Len(Trace) + NChunks - 1) \div NChunks
 TraceInit ==
-  /\ cs = [d |-> 0, c |-> <<0, 0, 0>>, o |-> <<>>, ref |-> <<>>, it |-> 0, cc |-> <<0, 0>>]
+  /\ cs = [d |-> 0, c |-> <<0, 0, 0>>, o |-> <<>>, ref |-> <<>>, it |-> 0, inc |-> 0, cc |-> <<0, 0>>]
   /\ \E k \in 0..(NChunks - 1) :
        /\ 1 + k * ChunkSize <= Len(Trace)
        /\ first = 1 + k * ChunkSize
